@@ -67,6 +67,7 @@ theorem finish_direct (c : Cfg) (ar aq : Nat) (s : S) (b : Base c ar aq s) (hrun
     exact tail_down c ar aq s b hcl hd (fun _ => hlc)
   · rw [if_neg hd, if_pos hdir]
     simp only []
+    rw [rsReset_retries_of_not_held c s hheld]
     by_cases how : c.oneway = true
     · rw [if_pos how]
       exact tail_oneway c ar aq s b hrun hcl how h3 h6 hpd hsr hpass hrst none (Or.inr ⟨rfl, hheld⟩) h27
